@@ -360,6 +360,17 @@ func (c07) RunCase(c *core.Ctx) {
 		c07KeptLists(c)
 		return
 	}
+	if c.Case%32 == 11 {
+		// the same call twice, the caller editing its first result in between: the second result does not depend on that
+		name, problem := dDefaultsIndependent(c.R)
+		c.Eval(2)
+		if problem != "" {
+			c.Violation("execution-not-isolated|result-depends-on-what-an-earlier-caller-did-to-its-result", map[string]any{"schema": name, "observed": problem})
+			return
+		}
+		c.NonTrivial(fpf("defaults|%s|%d", name, c.Case))
+		return
+	}
 	switch c.Case % 3 {
 	case 0:
 		c07History(c)
